@@ -21,6 +21,16 @@ A8 = 'A8 toolchains: Verus compiles the extracted text with Rust 1.98.1, Kani wi
 EVAL_FUNCS = 'eval_expr, eval_or_expr, eval_and_expr, eval_eq_expr, eval_relational_expr, eval_add_expr, eval_mul_expr, eval_unary_expr, eval_union_expr, eval_path_expr, eval_filter_expr, eval_primary_expr, eval_filtered_loc_expr, eval_loc_expr, eval_step_expr, eval_axis_node_test, eval_node_test, eval_predicate, eval_func_expr'
 
 PROPS = {
+    'C12': dict(
+        standin_ops=['dom.tree_atomic'],
+        verus_units=['c13_tree'],
+        level='proof',
+        trusted_base=TRUSTED_VERUS,
+        assumptions=[A4, A8, 'world model: the parent link of every item of the document is a ghost map on the receiver; value.remove_from_parent() is an assumed callee (the old parent forgets the item, its parent link becomes None; if the old parent is the receiver its own list loses the item); XmlAttributeValue::try_from accepts exactly text, character references and entity references; HasParent::ancestor is an assumed read-only callee',
+                     'XmlDocument::insert_by_id / delete_by_id (nested helper fn) and XmlAttribute::delete_by_id are not extracted'],
+        not_decided='the tree invariant over whole edit histories (first_child/last_child/previous_sibling/next_sibling agreement, no node beneath itself, at most one document element / document type): these quantify over the live aliasing graph; only the local steps of the two primitives on elements and attributes are decided',
+        explanation='the local steps that keep child lists and parent links in agreement: XmlElement::insert_by_id and XmlAttribute::insert_by_id either refuse and change nothing (child list, parent links) or leave the value listed exactly once under this parent with its parent link pointing here; XmlElement::delete_by_id removes exactly that child and clears its parent link, and changes nothing for an unknown id',
+    ),
     'C10': dict(
         standin_ops=['ctx.script'],
         verus_units=['c10_ns'],
@@ -153,11 +163,15 @@ NOT_APPLICABLE = {
     'C03': 'totality of parse/print is a property of the recursive nom grammar, unimplemented! arms reachable only with a live document, recursion depth and running time; none is expressible as a contract on a function either verifier can load',
     'C05': 'the evaluator recurses over live dom::XmlNode graphs (Rc<RefCell>, order keys through HashMap/Weak); building a three-node document under Kani exceeds 8 min/3.5 GB and Verus has no model of the graph; the scalar leaves are decided under C09',
     'C08': 'spelling equivalence and precedence are properties of the nom expression grammar (relations between strings), outside both verifiers',
-    'C12': 'the tree invariant quantifies over histories on the aliasing object graph (children vectors vs parent_id via id_map); a ghost-tree proof is a protocol-level invariant beyond this task and Kani cannot build the objects',
     'C17': 'the CLIs compose file I/O, both nom grammars, the evaluator, DOM mutation and the printer; nothing in them is a function a contract can isolate',
 }
 
 MANIFEST_TEXT = {
+    'C12': dict(
+        level_text='Proof (Verus, all child lists / ids / item kinds) of the LOCAL steps only: insert_by_id of elements and attributes and delete_by_id of elements keep "listed under a parent" and "parent link points to that parent" in agreement, list an accepted child exactly once, and change nothing when they refuse. The invariant over whole edit histories and the sibling/first/last views are not decided.',
+        level_note='Trusted: Verus+Z3, extractor, the ghost world model of parent links with remove_from_parent as an assumed callee. Not decided: everything that needs the live graph as a whole.',
+        technique='contract-based deductive verification (Verus pre/postconditions with a ghost parent map on extracted real functions)',
+        design_ref='DESIGN.md §9'),
     'C10': dict(
         level_text='Proof (Verus, all binding lists, prefixes, URIs, QNames) for the expression side of C10 only: add_ns/remove_ns/get_ns_uri/expanded_name of the evaluation context implement "the first binding of the prefix, re-binding replaces", equal_qname compares (local part, namespace URI) and ignores prefixes, and prefix renaming is proved not to change any resolution. The document side (scoping of xmlns declarations in the tree) is not decided.',
         level_note='Trusted: Verus+Z3, extractor, std shims for retain/find/to_string/string equality; three induction lemmas proved in the unit. Not decided: everything that walks the element tree.',
